@@ -77,6 +77,7 @@ class Exec:
         self.entry_env: Env | None = None
         self.ret_paths = 0
         self.notes: list[str] = []
+        self._implied_cache: dict = {}
         self._number_loops()
         self._scan_local_kinds()
 
@@ -414,6 +415,23 @@ class Exec:
             if t.t.eq(base.t):
                 return True
         return False
+
+    def implied(self, st: St, fact) -> bool:
+        """Cheap syntactic-ish implication test used only to simplify generated terms
+        (a `False` answer is always safe)."""
+        key = (tuple(p.get_id() for p in st.pc[-12:]), fact.get_id())
+        if key in self._implied_cache:
+            return self._implied_cache[key]
+        s = z3.Solver()
+        s.set("timeout", 300)
+        n_ax = len(self.ctx.axioms_z3)
+        for p in st.pc[n_ax:]:
+            if not z3.is_quantifier(p):
+                s.add(p)
+        s.add(z3.Not(fact))
+        r = s.check() == z3.unsat
+        self._implied_cache[key] = r
+        return r
 
     # ------------------------------------------------------------------ try / except
     def st_Try(self, s, st):
@@ -1028,6 +1046,8 @@ class Exec:
                     raise Unsupported("tuple subscript")
                 out.append((base.items[i.as_long()], s))
                 continue
+            if isinstance(base, VSeq) and isinstance(idx, VOpt):
+                idx = self.co(idx, "int", s, "index")
             if isinstance(base, VSeq) and isinstance(idx, (VInt, VBool)):
                 i = coerce(idx, "int").t
                 n = z3.Length(base.t)
@@ -1035,7 +1055,7 @@ class Exec:
                 isim = z3.simplify(i)
                 if z3.is_int_value(isim):
                     j = i if isim.as_long() >= 0 else n + i
-                elif os.environ.get("PYVC_PLAININDEX"):
+                elif self.implied(s, i >= 0):
                     j = i
                 else:
                     j = z3.If(i < 0, n + i, i)
@@ -1289,6 +1309,19 @@ class Exec:
                     recv = VSeq(f"list[{ek}]", z3.Empty(sort_of(f"list[{ek}]")), fresh=True)
                 add = z3.Unit(coerce(vals[0], recv.ek).t) if name == "append" else vals[0].t
                 newv = VSeq(recv.kind, z3.Concat(recv.t, add), recv.fresh)
+                # theorems of the sequence theory about the new list, spelled out for the solver
+                j = z3.Int(f"j!app{next_id()}")
+                n0 = z3.Length(recv.t)
+                facts = [
+                    z3.Length(newv.t) == n0 + z3.Length(add),
+                    z3.ForAll([j], z3.Implies(z3.And(0 <= j, j < n0), newv.t[j] == recv.t[j])),
+                    z3.SubSeq(newv.t, 0, n0) == recv.t,
+                ]
+                if name == "append":
+                    facts.append(newv.t[n0] == coerce(vals[0], recv.ek).t)
+                if self.ctx.expand_quant:
+                    facts = [facts[0], facts[2]] + facts[3:]
+                s = s.assume(*facts)
                 for s2 in self.write_back(f.value, newv, s, recv):
                     out.append((VNone(), s2))
             return out
@@ -1384,7 +1417,9 @@ class Exec:
             post_env = Env({**params, "trace": VSeq("list[int]", s3.trace)}, s3.heap, old=pre_env)
             assumed = []
             for clause in case.get("ensures", []):
-                assumed.append(Pure(self.ctx, post_env, rv).b(_parse_spec(clause)))
+                f = Pure(self.ctx, post_env, rv).b(_parse_spec(clause))
+                assumed.append(f)
+                assumed.extend(seq_facts(f, bool(self.ctx.expand_quant)))
             out.append((rv, s3.assume(*assumed)))
         return out
 
@@ -1529,6 +1564,29 @@ class Exec:
             else:
                 raise Unsupported("break/continue escaping an inlined function")
         return res
+
+
+def seq_facts(f, qfree=False):
+    """For an assumed equality A == B ++ C between sequences: element-wise consequences
+    (theorems of the sequence theory) spelled out with usable triggers."""
+    out = []
+    if not (z3.is_eq(f) and z3.is_seq(f.arg(0))):
+        return out
+    a, b = f.arg(0), f.arg(1)
+    if z3.is_app_of(a, z3.Z3_OP_SEQ_CONCAT):
+        a, b = b, a
+    if not z3.is_app_of(b, z3.Z3_OP_SEQ_CONCAT) or b.num_args() != 2:
+        return out
+    left, right = b.arg(0), b.arg(1)
+    n0 = z3.Length(left)
+    out.append(z3.Length(a) == n0 + z3.Length(right))
+    out.append(z3.SubSeq(a, 0, n0) == left)
+    if not qfree:
+        j = z3.Int(f"j!sf{next_id()}")
+        out.append(z3.ForAll([j], z3.Implies(z3.And(0 <= j, j < n0), a[j] == left[j])))
+    if z3.is_app_of(right, z3.Z3_OP_SEQ_UNIT):
+        out.append(a[n0] == right.arg(0))
+    return out
 
 
 def _clamp(x, n):
